@@ -5,7 +5,8 @@ RULE = (
     "case = (policy, env, size, pool of 6-8 instances): each instance is decoded greedily ALONE (batch size 1, reference) "
     "and then inside batches: the whole pool, the pool reversed, random subsets of 2/3/5, three copies of itself, copies "
     "among strangers; policy in eval() under torch.inference_mode(). One evaluation = one (instance, context) comparison "
-    "of actions (exact), reward (1e-5 rel) and log-likelihood (1e-4 rel). A solo decode whose smallest top-2 logit margin "
+    "of actions (exact), reward (1e-5 rel) and log-likelihood (1e-4 rel); the same for best-of-k greedy multi-start "
+    "decoding (select_best) of AttentionModelPolicy, whose per-instance result must not depend on the batch either. A solo decode whose smallest top-2 logit margin "
     "is < 1e-5 makes an action difference ambiguous (counted, no verdict). Non-trivial = distinct (policy, env, solo "
     "solution, context, batch size, position)"
 )
@@ -39,6 +40,11 @@ def cases(tier, seed):
         for n in ((6, 10) if q else (5, 6, 10, 20, 50)):
             for r in range(2 if q else 10):
                 out.append(dict(policy=kind, env=env, n=n, m=6 if q else 8, s=rnd.randrange(10**6), wseed=r, extra=extra))
+    for env in ("tsp", "cvrp", "pctsp", "pdp"):
+        for n in ((6, 8) if q else (6, 8, 10, 20)):
+            for r in range(2 if q else 6):
+                k = n // 2 if env == "pdp" else n
+                out.append(dict(policy="am", env=env, n=n, m=6 if q else 8, s=rnd.randrange(10**6), wseed=r, extra={}, multistart=k))
     return out
 
 
